@@ -51,7 +51,8 @@ func (db *Builder) Add(b []byte) error {
 	if db.lastWord != nil && bytes.Compare(db.lastWord, b) != -1 {
 		return errors.New("byte slices must be added in lexicographical order")
 	}
-	db.lastWord = b
+	//Keep a copy (which is never nil) as the caller may reuse b and as b may be a nil slice representing the empty word.
+	db.lastWord = append([]byte{}, b...)
 	_, suffix, lastNode := db.d.commonPrefix(b)
 	if len(lastNode.links) != 0 {
 		db.register = replaceOrRegister(lastNode, db.register)
